@@ -57,3 +57,45 @@ def hierarchies(limit=None, stride=1):
                 count += 1
                 if limit and count >= limit:
                     return
+
+
+class _Hier:
+    def __init__(self, label, classes, start):
+        self.label = label
+        self.CLASSES = list(classes)
+        self.START = start
+        self.__name__ = "vf.fixtures.family:" + label
+
+    def grammar(self, **kw):
+        from geneticengine.grammar.grammar import extract_grammar
+
+        return extract_grammar(list(self.CLASSES), self.START, **kw)
+
+
+def get(index: int) -> _Hier:
+    """the index-th hierarchy of the family (fresh classes on every call)"""
+    for k, (label, classes, start) in enumerate(hierarchies()):
+        if k == index:
+            return _Hier(label, classes, start)
+    raise IndexError(index)
+
+
+def interesting(max_depth=3, max_language=300, every=1):
+    """indices of hierarchies whose bounded language at max_depth is non-empty and small (finite
+    choice, terminating), for the solver-backed obligations"""
+    from vf.oracles import grammar as OG
+    from vf.oracles import language as OL
+
+    out = []
+    for k, (label, classes, start) in enumerate(hierarchies()):
+        h = _Hier(label, classes, start)
+        a = OG.Analysis(classes, start)
+        if a.min_depth[start] > max_depth:
+            continue
+        try:
+            n = len(OL.language(h, max_depth))
+        except Exception:
+            continue
+        if 0 < n <= max_language:
+            out.append(k)
+    return out[::every]
